@@ -1,9 +1,89 @@
-import Driver.Loop
+import Driver.GeoWire
+import Midgard.Model.Geodetic
+import Midgard.Generated.Ellipsoids
+import Midgard.Generated.EllipsoidFlow
 
-/-! Driver for C05: placeholder until the model is written. -/
+/-! Driver for C05: ellipsoid parameters (`Rat` and `Float`), `trs2llh` / `llh2trs` (`Float`), and the
+ellipsoid attribute-flow machine over the regenerated constructor-call table. -/
 namespace Driver.C05
+open Midgard.Proto Midgard.Geo Driver.GeoWire
+
+def ellQ? (name : String) : Option (Ellipsoid Rat) :=
+  (Midgard.Generated.Ellipsoids.table.find? (·.1 == name)).map (·.2)
+
+def ellF? (name : String) : Option (Ellipsoid Float) :=
+  (ellQ? name).map (fun r => ⟨ratToFloat r.a, r.fInv.map ratToFloat⟩)
+
+def ellIndex? (name : String) : Option Nat :=
+  Midgard.Generated.Ellipsoids.table.findIdx? (·.1 == name)
+
+def ellName (i : Option Nat) : String :=
+  match i with
+  | none => "?"
+  | some k => ((Midgard.Generated.Ellipsoids.table[k]?).map (·.1)).getD "?"
+
+def parseOp? : String → Option Op
+  | "convert" => some .convert | "sliceRow" => some .sliceRow | "fancy" => some .fancy
+  | "subset" => some .subset | "addDelta" => some .addDelta | "deepcopy" => some .deepcopy
+  | "posOf" => some .posOf | "emptyFrom" => some .emptyFrom | "insert" => some .insert
+  | _ => none
+
+def parseCls? : String → Option PCls
+  | "position" => some .position | "posvel" => some .posvel | _ => none
+
+def showCls : PCls → String
+  | .position => "position" | .posvel => "posvel"
 
 def handle : List String → Option String
+  | ["c05", "ell", name] => do
+    let E ← ellQ? name
+    pure s!"{showRat E.a} {showOpt showRat E.fInv}"
+  | ["c05", "ellnames"] =>
+    pure (showList id (Midgard.Generated.Ellipsoids.table.map (·.1)))
+  | ["c05", "q", "params", name] => do
+    let E ← ellQ? name
+    pure s!"{showRat E.f} {showRat E.b} {showRat E.e2}"
+  | ["c05", "f", "params", name] => do
+    let E ← ellF? name
+    pure s!"{Wire.render E.f} {Wire.render E.b} {Wire.render E.e2}"
+  | "c05" :: "f" :: "trs2llh" :: name :: rest => do
+    let E ← ellF? name
+    match ← parseAll? (α := Float) rest with
+    | [x, y, z] =>
+      let g := trs2llh E ⟨x, y, z⟩
+      pure s!"{Wire.render g.lat} {Wire.render g.lon} {Wire.render g.h}"
+    | _ => none
+  | "c05" :: "f" :: "llh2trs" :: name :: rest => do
+    let E ← ellF? name
+    match ← parseAll? (α := Float) rest with
+    | [lat, lon, h] => pure (showV3 (llh2trs E ⟨lat, lon, h⟩))
+    | _ => none
+  | "c05" :: "f" :: "llh2trsCS" :: name :: rest => do
+    let E ← ellF? name
+    match ← parseAll? (α := Float) rest with
+    | [cl, sl, co, so, h] => pure (showV3 (llh2trsCS E cl sl co so h))
+    | _ => none
+  | "c05" :: "f" :: "halley" :: name :: rest => do
+    let E ← ellF? name
+    match ← parseAll? (α := Float) rest with
+    | [p, absz] =>
+      let sc := halley E p absz
+      pure s!"{Wire.render sc.1} {Wire.render sc.2}"
+    | _ => none
+  | ["c05", "flow", cls, name, ops] => do
+    let c ← parseCls? cls
+    let i ← ellIndex? name
+    let ops ← parseList? parseOp? ops
+    let tbl := Midgard.Generated.EllipsoidFlow.sites
+    let r := Midgard.Geo.run tbl ⟨c, some i⟩ ops
+    let used := convertedOn tbl ⟨c, some i⟩ ops
+    pure s!"{showCls r.cls} {ellName r.ell} {showList ellName used}"
+  | ["c05", "flowstep", cls, name, op] => do
+    let c ← parseCls? cls
+    let i ← ellIndex? name
+    let o ← parseOp? op
+    let r := step Midgard.Generated.EllipsoidFlow.sites ⟨c, some i⟩ o
+    pure s!"{showCls r.cls} {ellName r.ell}"
   | _ => none
 
 end Driver.C05
